@@ -121,1098 +121,1130 @@ o )
     //
     }
 ")).
-Eval vm_compute in ("<<<M1582>>>" ++ check (runes_of_ascii "packet o {
-    @leftPad(
-        )
-    @tag(00)
-    int16 int @lengthOf(Header) `
-    `,
-    @leftPad(
-    '\x00')
-    char[00] body @lengthOf(a1) `" ++ [28040; 24687; 31867; 22411]%N ++ runes_of_ascii "`,
+Eval vm_compute in ("<<<M1872>>>" ++ check (runes_of_ascii "//	t
+packet MetaDataX {
+    @leftPad()
+    repeat float64 asx,
 }
 
-packet roots {
-    Logon `crlf
-    line`,
-}
-
-packet _x {
-    zchar[4294967296] Header `
-    `,
-    chars @calculatedFrom(""1""),
-    match As as A {
-        ""`tick`"" : u,
-    },
-    repeat string zchar,
-    repeat packetx {
-        match pack as lengthOf {
-            3 : calculatedFrom,
-            3 : metadata,
-            ""abc"" : falsey,
-            4294967296 : len,
-        },
-        match Packet as repeatCount {
-            [
-                ""a\\"", 1, ""a\\"", 0, ""packet"",
-                ""a	b""
-            ] : f32a,
-            4294967296 : tag,
-            1 : packetx,
-            [
-                ""\n"", 42, 4294967296, ""a	b"", 10,
-                255, 007
-            ] : chars,
-            [
-                ""1"", ""// no comment"", 0, 1, ""`tick`"",
-                3, 42, ""\" ++ [233]%N ++ runes_of_ascii """
-            ] : BodyLength,
-        },// trailing space 
-    },
-    string u8x `" ++ [28040; 24687; 31867; 22411]%N ++ runes_of_ascii "`,
-    repeat f32a {
-        char[7] x_y_z `
-        `,
-    },
-}
-
-MetaData Packet {
-    chars u,
-    char[] u8x,
-    // 50% %s
-    // trailing space 
-    x_y_z asx `" ++ [28040; 24687; 31867; 22411]%N ++ runes_of_ascii "`,
-    int8 Header `{ , }`,
-    zchar[4294967296] rootA `u8 x,`,
-    char[] calculatedFrom,
-}")).
-Eval vm_compute in ("<<<M1464>>>" ++ check (runes_of_ascii "options {
-    LittleEndian = true;
-    StringPrefixLenType = u16;
-    ArrayPrefixLenType = u8;
-    FixedStringPadChar = ' ';
-}
-
-packet Ack {
-    @leftPad(
-    ' ')
-    char[5] lastPx,
-    zchar[4] count,
-    repeat InVenue30 {
-        char[9] Side2,
-        char[12] venue,
-    },
-}
-
-packet Order {
-    int16 Note,
-    repeat InAcct28 {
-        InSym3 {
-            Ack,
-            char[4] lastPx,
-            char[1] venue,
-            f32 Ref,
-        },
-        repeat InTag729 {
-            char[3] Side2,
-            uint64 Acct,
-            char[] price,
-            zchar[9] Note,
-            zchar[9] venue,
-        },
-        char[] count,
-        Ack,
-        char[] Px,
-    },
-    u8 f1,
-    Ack,
-}
-
-packet Fill {
-    zchar[7] x,
-    Order,
-    @leftPad(
-    ' '
-    )
-    char[9] venue,
-    string count,
-    char[] Flags,
-}
-
-packet Logon {
-}
-
-packet Reject {
-    Order,
-    char[] sym,
-}
-
-root packet Quote {
-    string price,
-    i64 Flags,
-    repeat Fill,
-    zchar[9] x,
-    f32 lastPx,
-    repeat Ack,
-}")).
-Eval vm_compute in ("<<<M1581>>>" ++ check (runes_of_ascii "
-
-  options
-
-{ LittleEndian =
-
-    false ;
-StringPrefixLenType	=
-u16  ;
-ArrayPrefixLenType=
-u8 ;FixedStringPadChar=
-
-'0'  ;
-
-    } 
-packet
-
-    Leg {
-
-    zchar[  1
-	]
-Ref
-,repeat string count , repeat  InMsgkind21
-
-{
-repeat char[ 2 
-]
-
-price,
-uint64
-sym
-
-    , zchar[
-
-9
-	]
-msgKind
-	, 
-},
-zchar[
-
-5 
-] Note 
-,}
-	packet  Ack
-	{
-
-    u16
-    seqNo 
-, 
-repeat
-    char[ 
-1  ]Acct 
-,
-@leftPad
-
-( ' '  )
-    char[ 
-4
-] msgKind
-
-,
-    repeat
-    InTag747
-	{
-Leg,	}  , repeat string
-	Tail
-
-    ,  Leg, } packet
-    Trade
-{u64	clOrdID , repeat InLastpx24
-    {
-
-char[ 10
-    ]
-	Note,
-char[	3  ]
-
-Qty
-,  repeat  char[
-2
-	]
-Side2 ,
-
-    Ack ,repeat
-InX47 
-{ Ack	,
-}	,
-	} ,  }	root
-packet 
-Heartbeat {	repeat	u64
-    Acct
-
-    ,
-    string 
-lastPx
-, u8
-Side2	,
-match
-
-    Side2
-
-    as  Body{2  :	Trade
-, 
-157 :Ack	, 46
-
-    :
-
-    Leg, 
-} ,
-
-u32  sym
-@calculatedFrom(""CR\
-C32""
-) , }")).
-Eval vm_compute in ("<<<M1196>>>" ++ check (runes_of_ascii "// top
-options
-    // c0
-{
-    // c1
-}
-    // c2
-MetaData
-    // c3
-packetx
-    // c4
-{
-    // c5
-int
-    // c6
-falsey
-    // c7
-`two words`
-    // c8
-,
-    // c9
-int32
-    // c10
-trueish
-    // c11
-,
-    // c12
-char[]
-    // c13
-u8x
-    // c14
-,
-    // c15
-A
-    // c16
-x
-    // c17
-`// not a comment`
-    // c18
-,
-    // c19
-}
-    // c20
-root
-    // c21
-packet
-    // c22
-i8i8
-    // c23
-{
-    // c24
-@lengthOf(
-    // c25
-repeatCount
-    // c26
-)
-    // c27
-@tag(
-    // c28
-1
-    // c29
-)
-    // c30
-@calculatedFrom(
-    // c31
-""a	b""
-    // c32
-)
-    // c33
-string
-    // c34
-stringy
-    // c35
-@calculatedFrom(
-    // c36
-""\n""
-    // c37
-)
-    // c38
-`line1
-line2`
-    // c39
-,
-    // c40
-pack
-    // c41
-`100% of %d`
-    // c42
-,
-    // c43
-}
-    // c44
-")).
-Eval vm_compute in ("<<<M169>>>" ++ check (runes_of_ascii "MetaData
-i8i8	{
-char[// " ++ [128512]%N ++ runes_of_ascii " emoji
-00 ] msg_type
-`say ""hi""`  ,
-} // " ++ [128512]%N ++ runes_of_ascii " emoji
-MetaData// packet A { u8 x, }
-charz
-{ zchar[ 0
-]
-    options1 ,	}packet	MetaDataX
-{ // packet A { u8 x, }
-Header /// triple
-u8x`// not a comment` ,
-    x rootA , @lengthOf(falsey
-    )
-@lengthOf(
-//x
-// " ++ [27880; 37322]%N ++ runes_of_ascii "
-i8i8
-    )
-    match MetaDataX as stringy { [// " ++ [128512]%N ++ runes_of_ascii " emoji
-""" ++ [128512]%N ++ runes_of_ascii """ // @lengthOf(
-, ""a\""b""  ] : i64_// c
-,} , } MetaData
-    // `tick` ""quote"" 'q'
-    msg_type { string
-// `tick` ""quote"" 'q'
-// trailing space 
-zchar `doc` ,
-    //
-    } MetaData leftPad{ uint8 x`crlf
-line`
-, i32 msg_type
-// packet A { u8 x, }
-//x
-`// not a comment` ,
-char[255] leftPad , // a // b
-char[]
-    u , //	t
-} 	 ")).
-Eval vm_compute in ("<<<M1478>>>" ++ check (runes_of_ascii "packet int {
-    /// triple
-    lengthOf,// " ++ [27880; 37322]%N ++ runes_of_ascii "
-    match x_y_z as trueish {
-        [""it's"", 0123456789] : i64_,
-    },
-    @tag(255)
-    @leftPad(// packet A { u8 x, }
-        '0' )
-    options1 @calculatedFrom(""1"") `
-        `,// @lengthOf(
-    @leftPad( '\x00')
-    // packet A { u8 x, }
-    len @lengthOf(rootA),
-    i64_ packetx,
-    @tag(42)
-    int32 trueish,
-    i8 options1 `two words`,
-    @leftPad( '0'
-        )
-    char[1] calculatedFrom `tab	here`,
-    @lengthOf(o)
-    @tag(007)
-    u8 _x @calculatedFrom(""`tick`""),
-    repeatCount @lengthOf(MetaDataX),/// triple
-}")).
-Eval vm_compute in ("<<<M1371>>>" ++ check (runes_of_ascii "options {
-
-LittleEndian  =	true
-
-    ;	ArrayPrefixLenType  =
-u32 ; 
-FixedStringPadChar 
-=
-' ';
-}
-
-    packet
-    Order 
-{ char[
-5 ]
-    seqNo ,	uint8	Px , } packet 
-Logon
-{ @rightPad
-    ('\x00'
-)
-char[  8 ]Flags
-
-    ,
-    zchar[ 
-3
-]
-
-    count
-
-,	repeat
-
-    Order
-    ,
-}
-    root
-
-packet Party
-	{ repeat 
-Logon ,repeat
-
-    char[
-1
-	]
-	x , 
-u32
-price ,u32
-Side2
-	@lengthOf(
-Body
-	)	,	match	price
-
-as 
-Body 
-{
-    49
-
-: Order,
-
-196:
-
-Logon  ,
-	}  , u32
-f1 @calculatedFrom(	""CRC32""
-
-)  ,	}
-
-")).
-Eval vm_compute in ("<<<M1176>>>" ++ check (runes_of_ascii "// top
-options
-    // c0
-{
-    // c1
-f32a
-    // c2
-=
-    // c3
-0
-    // c4
-}
-    // c5
-packet
-    // c6
-trueish
-    // c7
-{
-    // c8
-}
-    // c9
-MetaData
-    // c10
-_x
-    // c11
-{
-    // c12
-char[
-    // c13
-0123456789
-    // c14
-]
-    // c15
-zchar
-    // c16
-,
-    // c17
-string
-    // c18
-crc
-    // c19
-,
-    // c20
-char[
-    // c21
-1
-    // c22
-]
-    // c23
-options1
-    // c24
-,
-    // c25
-uint8
-    // c26
-repeatCount
-    // c27
-,
-    // c28
-}
-    // c29
-")).
-Eval vm_compute in ("<<<M312>>>" ++ check (runes_of_ascii "packet  _x	{@calculatedFrom(
-""it's""
-/// triple
-// " ++ [27880; 37322]%N ++ runes_of_ascii "
-) A rootA , int8 Logon
-`100% of %d`	, @lengthOf( As ) a1
-lengthOf ,
-float32 zchar
-@calculatedFrom(""// no comment""
-)
-    ,} MetaData Packet
-{
-    packetx len
-// packet A { u8 x, }
-// 50% %s
-, u16	_x `100% of %d` , uint8 roots
-`{ , }`
-    ,
-falsey leftPad `say ""hi""`
-    ,
-} options// " ++ [128512]%N ++ runes_of_ascii " emoji
-{ A =	10  ;
-Pad
-=  char ; i8i8// 50% %s
-=
-string	x_y_z =
-    false// 50% %s
-}
-")).
-Eval vm_compute in ("<<<M319>>>" ++ check (runes_of_ascii "
-MetaData chars {
-char[]f32a	`" ++ [28040; 24687; 31867; 22411]%N ++ runes_of_ascii "` ,
-zchar[ 255 ] calculatedFrom , // @lengthOf(
-a1
-metadata
-    ,
+MetaData Foo {
     // a // b
-    u i64_ `
-` , A asx `100% of %d` , }
-    // `tick` ""quote"" 'q'
-    MetaData int //x
-{ char[] As
-// 50% %s
-// @lengthOf(
-`// not a comment` , }
-MetaData
-    Header { int16
-charz
-    , uint64 u8x
-    // c
-    ,	string zchar , float64 options1 `// not a comment`,uint64 stringy , }
-")).
-Eval vm_compute in ("<<<M1512>>>" ++ check (runes_of_ascii "options {
-    LittleEndian = true;
-    StringPrefixLenType = u32;
-    ArrayPrefixLenType = u64;
+    char[65535] Pad,
 }
 
-packet Logon {
-    string OrderId,
-    uint32 lastPx,
-    repeat char[6] Side2,
-    i64 Tail,
-    repeat i8 f1,
+packet body {
+    match asx as charz {
+        // `tick` ""quote"" 'q'
+        10 : u8x,
+        ""it's"" : leftPad,
+        3 : metadata,
+        ""it's"" : x,
+        [65535, """ ++ [233]%N ++ runes_of_ascii "t" ++ [233]%N ++ runes_of_ascii """] : u128,
+        10 : len,
+    },
+    repeat f32 rootA ``,// 50% %s
+    @leftPad(' ')
+    repeat i64 BodyLength,
+    repeatCount {
+        i16 crc @lengthOf(u128),
+    },
+    u16 u @lengthOf(f32a) `// not a comment`,// trailing space 
+    len {
+        match Logon as Foo {
+            """ ++ [233]%N ++ runes_of_ascii "t" ++ [233]%N ++ runes_of_ascii """ : stringy,
+            10 : msg_type,
+            //	t
+            [
+                ""\n"", ""`tick`"", ""abc"", """", 007,
+                1, ""a\""b""
+            ] : i64_,
+            255 : T,
+            ""{,}"" : f32a,
+        },
+        string tag @lengthOf(Z9_),
+        // a // b
+        u32 charz `crlf
+                line`,
+        u8x @lengthOf(rootA),
+    },
+    float,
+    int8 repeatCount @lengthOf(f32a) `crlf
+        line`,
+    zchar[7] BodyLength @lengthOf(string_),
 }
 
-packet Party {
-}
+packet u128 {
+    x `// not a comment`,
+}//
 
-packet Quote {
-    repeat char[6] clOrdID,
-    repeat Logon,
-}
-
-root packet Order {
-    zchar[5] Acct,
-    repeat f64 price,
+packet x {
+    A `doc`,
+    Packet @calculatedFrom(""\" ++ [233]%N ++ runes_of_ascii """) `say ""hi""`,
+    repeat string asx,
+    @lengthOf(MetaDataX)
+    repeat char[4294967296] string_ `u8 x,`,
+    @lengthOf(charz)
+    char[0123456789] f32a `say ""hi""`,
 }")).
-Eval vm_compute in ("<<<M131>>>" ++ check (runes_of_ascii "MetaData  u
-{ f64 roots , zchar trueish,}  root
-    packet Foo // @lengthOf(
-{ packetx  ,
-repeat zchar[ // trailing space 
-3 ]
-    // " ++ [128512]%N ++ runes_of_ascii " emoji
-    msg_type `
-` ,  } root packet Header { match u8x
-as options1 {
-4294967296 :metadata , // `tick` ""quote"" 'q'
-4294967296
-    :
-    // trailing space 
-    float , }
-    ,//x
-}")).
-Eval vm_compute in ("<<<M48>>>" ++ check (runes_of_ascii "  options
-{ len	= 00
-;
-//	t
-// packet A { u8 x, }
-charz= zchar[ 3 ] //
-; Pad
-=
-255 ;
-falsey
-=""" ++ [28040; 24687]%N ++ runes_of_ascii """ }root packet
-    repeatCount { char[4294967296
-] x_y_z @lengthOf(string_ )
-,@calculatedFrom(
-""packet""
-) @tag(	4294967296 ) float32
-asx @lengthOf(
-    x_y_z ), u64
-    zchar , } 	 ")).
-Eval vm_compute in ("<<<M1914>>>" ++ check (runes_of_ascii "// packet A { u8 x, }
-root packet zchar {
-    @leftPad( '\x00' )
-    repeat Logon BodyLength,
-    @rightPad(  )
-    @calculatedFrom(""a\""b"")
-    @tag(42)
-    repeat _x MetaDataX,
-    @leftPad( '0'
-            )
-    string calculatedFrom @calculatedFrom(""it's""),
-}")).
-Eval vm_compute in ("<<<M437>>>" ++ check (runes_of_ascii "packet
-    asx { @calculatedFrom(
-""""  ) @tag( 255 )repeat
-// packet A { u8 x, }
-// trailing space 
-int16 int16 u8x
-,
-@tag(
-    //
-    007 )
-    @tag( 0
-    /// triple
-    ) @tag( 1) u
-    @lengthOf( T ),
+Eval vm_compute in ("<<<M1607>>>" ++ check (runes_of_ascii "
+
+  root packet u8x { body @lengthOf( 
+i64_ )
+	`` ,@lengthOf(Foo)
+
+    //x
 // `tick` ""quote"" 'q'
-//x
-} // " ++ [128512]%N ++ runes_of_ascii " emoji")).
-Eval vm_compute in ("<<<M477>>>" ++ check (runes_of_ascii "packet
-    asx { @calculatedFrom(
-""""  ) @tag( 255 )repeat
-// packet A { u8 x, }
-// trailing space 
-int16 u8x
-,
-@tag(
-    //
-    007 )
-    @tag( 0
-    /// triple
-    ) ) @tag( 1) u
-    @lengthOf( T ),
-// `tick` ""quote"" 'q'
-//x
-} // " ++ [128512]%N ++ runes_of_ascii " emoji")).
-Eval vm_compute in ("<<<M418>>>" ++ check (runes_of_ascii "packet
-    asx { @calculatedFrom(
-""""  ) 255 @tag( )repeat
-// packet A { u8 x, }
-// trailing space 
-int16 u8x
-,
-@tag(
-    //
-    007 )
-    @tag( 0
-    /// triple
-    ) @tag( 1) u
-    @lengthOf( T ),
-// `tick` ""quote"" 'q'
-//x
-} // " ++ [128512]%N ++ runes_of_ascii " emoji")).
-Eval vm_compute in ("<<<M409>>>" ++ check (runes_of_ascii "packet
-    asx { @calculatedFrom(
-:  ) @tag( 255 )repeat
-// packet A { u8 x, }
-// trailing space 
-int16 u8x
-,
-@tag(
-    //
-    007 )
-    @tag( 0
-    /// triple
-    ) @tag( 1) u
-    @lengthOf( T ),
-// `tick` ""quote"" 'q'
-//x
-} // " ++ [128512]%N ++ runes_of_ascii " emoji")).
-Eval vm_compute in ("<<<M431>>>" ++ check (runes_of_ascii "packet
-    asx { @calculatedFrom(
-""""  ) @tag( 255 )
-// packet A { u8 x, }
-// trailing space 
-int16 u8x
-,
-@tag(
-    //
-    007 )
-    @tag( 0
-    /// triple
-    ) @tag( 1) u
-    @lengthOf( T ),
-// `tick` ""quote"" 'q'
-//x
-} // " ++ [128512]%N ++ runes_of_ascii " emoji")).
-Eval vm_compute in ("<<<M1339>>>" ++ check (runes_of_ascii "
-packet
-Logon
-	{  string
-user,	}
-    root  packet
-Frame
-{u8 K ,match
+  string_ 
+@lengthOf( int ),
+@lengthOf(
 
-K
-as	Body
-	{
+rootA	//	t
+	)@tag(255 // c
 
-1
-:	Logon,  2
-    : Logout
-,
-
-    }
-
-,
-    Tail,
-    }
-    packet
-Logout {u16
-reason
-
-,
-}
-    packet  Tail
-
-{  u32 crc  , }
-
-")).
-Eval vm_compute in ("<<<M184>>>" ++ check (runes_of_ascii "  root packet body
-    {
-string chars `" ++ [233]%N ++ runes_of_ascii "` , repeat uint8x, match uint8x as x // `tick` ""quote"" 'q'
-{
-    007
-    //	t
-    :
-// c
-// @lengthOf(
-calculatedFrom , }	,
-string_  falsey `
-`
-    ,
-}
-
-")).
-Eval vm_compute in ("<<<M500>>>" ++ check (runes_of_ascii "packet
-    asx { @calculatedFrom(
-""""  ) @tag( 255 )repeat
-// packet A { u8 x, }
-// trailing space 
-int16 u8x
-,
-@tag(
-    //
-    007 )
-    @tag( 0
-    /// triple
-    ) @tag( 1)")).
-Eval vm_compute in ("<<<M574>>>" ++ check (runes_of_ascii "MetaData u
-    { } MetaData zchar[
-{ float uint8x
-`100% of %d` ,repeatCount u8x, string_ leftPad
-, i32
-    Foo , int64 x `two words` , calculatedFrom
-stringy `a\` ,
-}
-")).
-Eval vm_compute in ("<<<M642>>>" ++ check (runes_of_ascii "MetaData u
-    { } MetaData o
-{ float uint8x
-`100% of %d` ,repeatCount u8x, string_ leftPad
-, i32
-    Foo , , int64 x `two words` , calculatedFrom
-stringy `a\` ,
-}
-")).
-Eval vm_compute in ("<<<M568>>>" ++ check (runes_of_ascii "MetaData u
-    { } o MetaData
-{ float uint8x
-`100% of %d` ,repeatCount u8x, string_ leftPad
-, i32
-    Foo , int64 x `two words` , calculatedFrom
-stringy `a\` ,
-}
-")).
-Eval vm_compute in ("<<<M561>>>" ++ check (runes_of_ascii "MetaData u
-    {  MetaData o
-{ float uint8x
-`100% of %d` ,repeatCount u8x, string_ leftPad
-, i32
-    Foo , int64 x `two words` , calculatedFrom
-stringy `a\` ,
-}
-")).
-Eval vm_compute in ("<<<M1829>>>" ++ check (runes_of_ascii "
-options
-{} 
-    // c
-      options
-
-    { MetaDataX 
-= char
-    ; }MetaData
-
-Pad {  i8 metadata
-	,string
-
-    stringy
-,
-
-    int8	As
-    `{ , }` ,  }
-
-")).
-Eval vm_compute in ("<<<M601>>>" ++ check (runes_of_ascii "MetaData u
-    { } MetaData o
-{ float uint8x
-`100% of %d` , u8x, string_ leftPad
-, i32
-    Foo , int64 x `two words` , calculatedFrom
-stringy `a\` ,
-}
-")).
-Eval vm_compute in ("<<<M1631>>>" ++ check (runes_of_ascii "  options { }options
-
-    { 
-MetaDataX	= char ;
-	}
-
-MetaData	Pad
-    // c
-    {i8
-metadata
-	,
-string
-    stringy 
-,
-
-    int8 As 
-`{ , }`
-, }")).
-Eval vm_compute in ("<<<M8>>>" ++ check (runes_of_ascii "MetaData roots //
-{ /// triple
-char[65535 ] i64_,	char[ 0 ] int
-`a\` ,
-uint8 MetaDataX , } packet
-asx{
-char[ 007 ] len
-    `
-`
-,
-}
-")).
-Eval vm_compute in ("<<<M1776>>>" ++ check (runes_of_ascii "packet
-	A{
-
-match k
+	)	match Logon
 
 as
+    roots
 
-    n{
+    { 1
+:
 
-[1
+    x_y_z
 
-, 22,  ""c c"" , 4
-	, 5	, ""f""
-	, 
-7 ,
-	8 
-,	""i""
-	,
-    10	,
-11] 
-: B,  2 :C 
-}
-	,
+,} ,}	packet	len  {@tag(	0123456789
+) 
+@leftPad
+	( 
+'\x00'
 
-    }")).
-Eval vm_compute in ("<<<M1931>>>" ++ check (runes_of_ascii "packet
-    A {u16
+    ) i8i8 { 
 
+//x
+// @lengthOf(
 len
-	@lengthOf(  body 
-)`a
-b`	,
-	u32
+	`u8 x,` 
+,	}  ,	@tag(
+0123456789	// 50% %s
+)	u8x 
+A, 
+char[007
+] int  ,
+@leftPad(
+'\x00' )
 
-crc 
-@calculatedFrom(	""CRC32"" ) `a
-b`,string	body
+    float64 len
+`100% of %d` ,
 
-    , } ")).
-Eval vm_compute in ("<<<M1206>>>" ++ check (runes_of_ascii "options {
-// c
-} options { MetaDataX = char ; } MetaData Pad { i8 metadata , string stringy , int8 As `{ , }` , }")).
-Eval vm_compute in ("<<<M1238>>>" ++ check (runes_of_ascii "options { } options { MetaDataX = char ; } MetaData Pad { i8 metadata , string stringy
-// c
-, int8 As `{ , }` , }")).
-Eval vm_compute in ("<<<M645>>>" ++ check (runes_of_ascii "MetaData u
+    }packet
+
+crc
+{
+	// `tick` ""quote"" 'q'
+	  // `tick` ""quote"" 'q'
+
+match
+	calculatedFrom	as leftPad 
+{ [	// packet A { u8 x, }
+
+""" ++ [233]%N ++ runes_of_ascii "t" ++ [233]%N ++ runes_of_ascii """  ]
+:
+Foo ""1""
+:  Packet  , 1 : stringy
+
+    [ 4294967296 
+
+    // c
+	  , 
+""a	b"" ]:	leftPad
+
+    ,
+
+[
+
+""" ++ [233]%N ++ runes_of_ascii "t" ++ [233]%N ++ runes_of_ascii """
+    ,
+
+"""",
+4294967296 , 0123456789,4294967296 ,  ""CRC32""
+	,
+    0123456789
+    , """"]
+
+:
+    rootA 
+}
+, 
+@rightPad
+    (	)
+
+roots
+{	As 	 //x
+		, repeat
+zchar[
+1 ]
+    falsey
+,repeat  char[]
+
+repeatCount ,
+    }//	t
+		, roots `a\`,	match  charz
+
+    as	i8i8{ [
+
+    ""\" ++ [233]%N ++ runes_of_ascii """,	""" ++ [233]%N ++ runes_of_ascii "t" ++ [233]%N ++ runes_of_ascii """ ]
+
+: 
+  // c
+	// @lengthOf(
+  o // @lengthOf(
+, 
+42 :
+
+matchKey
+	,
+00:
+
+    body, ""a\\""
+	:	rootA
+,
+} ,
+}
+
+")).
+Eval vm_compute in ("<<<M1368>>>" ++ check (runes_of_ascii "  options {LittleEndian	=true;
+StringPrefixLenType
+
+=
+
+    u16 ; ArrayPrefixLenType 
+=
+	u8
+; FixedStringPadChar  =' '
+    ; 
+}packet
+
+Ack
+
+    {
+
+@leftPad	(
+' ')char[
+5 ] lastPx 
+,
+zchar[	4 ]	count
+
+    ,  repeat InVenue30  {
+char[ 
+9 ]  Side2 ,
+    char[ 12 ]  venue
+,
+}
+
+    , } 
+packet
+	Order	{ int16
+    Note,  repeat	InAcct28
+    {	InSym3
+
+    { Ack ,char[  4]lastPx,
+    char[
+
+    1] venue , f32  Ref,	}, 
+repeat
+InTag729
+
+{char[
+	3 
+] Side2
+    ,
+
+uint64 Acct 
+,
+	char[] price
+    ,zchar[
+9 ]
+    Note
+
+    ,
+
+    zchar[9]
+    venue
+    ,
+},char[]
+count,
+Ack ,
+char[] Px, } ,u8
+	f1,
+Ack , 
+} packet
+
+    Fill{	zchar[7
+
+] 
+x
+,Order
+
+,
+
+    @leftPad  (
+' '
+) char[
+	9 ]
+
+    venue
+, 
+string	count 
+,	char[]  Flags
+, }	packet 
+Logon{
+    }	packet
+    Reject
+    { Order , char[]
+sym,
+}
+root packet Quote {string price
+
+,i64 Flags ,
+	repeat
+
+Fill
+,
+zchar[
+	9]
+x
+, f32 lastPx ,
+    repeat
+
+    Ack
+	, }
+")).
+Eval vm_compute in ("<<<M1917>>>" ++ check (runes_of_ascii "
+root packet// packet A { u8 x, }
+		i8i8
+    { @rightPad
+( 	 // 50% %s
+		)
+	char[]	i64_  ,string
+
+f32a @calculatedFrom(
+    ""a\""b"" )
+    // @lengthOf(
+	// packet A { u8 x, }
+,
+
+@tag(
+255
+)
+@calculatedFrom(
+""a	b"" ) @lengthOf(	u128	) match
+float
+
+    as
+metadata
+    {""\" ++ [233]%N ++ runes_of_ascii """
+
+    :  x_y_z	, 10
+: 
+
+// `tick` ""quote"" 'q'
+// `tick` ""quote"" 'q'
+	Packet
+	,
+
+    """"
+	:
+asx ,
+	} ,@lengthOf(asx
+	) 	 /// triple
+match matchKey 
+// trailing space 
+		// c
+as
+Foo{ 
+""// no comment""
+
+    :	trueish	42 : len,
+42:
+
+    options1
+
+    ""x y""  :
+	x_y_z
+	""CRC32""
+
+    // a // b
+  // packet A { u8 x, }
+:
+	zchar
+0123456789 
+:pack , }
+
+    , }
+MetaData
+crc{
+string
+    repeatCount ,  //	t
+      char[]
+a1	, 
+// 50% %s
+      // `tick` ""quote"" 'q'
+
+char 
+msg_type	, pack rootA  ,
+    u64
+Pad ,}")).
+Eval vm_compute in ("<<<M14>>>" ++ check (runes_of_ascii "
+packet Pad { @calculatedFrom( ""x y"") repeat f64 x
+`tab	here`, @rightPad
+    ( ) char[]
+float@calculatedFrom(
+""" ++ [233]%N ++ runes_of_ascii "t" ++ [233]%N ++ runes_of_ascii """ ) ,match uint8x as
+falsey//x
+{ ""CRC32""
+:
+    leftPad } ,@tag(
+    //	t
+    10 )
+    repeat Pad {
+    // " ++ [128512]%N ++ runes_of_ascii " emoji
+    zchar[42 ] uint8x@lengthOf( o)
+,
+// `tick` ""quote"" 'q'
+//x
+i16 x_y_z , stringy
+    @calculatedFrom(
+""`tick`""
+) `a\` ,}, Header// c
+repeatCount ,
+i64_	, @lengthOf( //x
+uint8x
+    ) match options1 as BodyLength
+{ 0
+    :
+    chars //x
+, 255: BodyLength 0123456789
+    :Foo
+    , [ 65535
+    , 42 , 42 ,
+    65535 ,
+255// " ++ [27880; 37322]%N ++ runes_of_ascii "
+, 1
+    // @lengthOf(
+    , ""1"",
+""\n""] : pack
+} , repeat
+    i8i8 msg_type , @lengthOf(f32a	) // @lengthOf(
+T BodyLength
+, }
+")).
+Eval vm_compute in ("<<<M238>>>" ++ check (runes_of_ascii "packet _x{zchar[ 65535 ]  metadata `crlf
+line` , @calculatedFrom( ""CRC32"") Header
+    `doc` //x
+,
+    match f32a as msg_type{
+    [
+    ""\n"" ] // `tick` ""quote"" 'q'
+:	charz
+0123456789
+:pack , [ ""packet""	, """" , ""`tick`""// " ++ [128512]%N ++ runes_of_ascii " emoji
+, // `tick` ""quote"" 'q'
+""CRC32"" , ""\n""
+    // @lengthOf(
+    , ""it's""
+, ""it's""
+,
+// @lengthOf(
+//x
+4294967296 ] : charz /// triple
+42
+:// @lengthOf(
+leftPad ,
+[
+    // 50% %s
+    255 ,7,  ""packet""
+    ,
+""{,}"" , ""\" ++ [233]%N ++ runes_of_ascii """
+, ""1"" ,
+    ""1""] // " ++ [27880; 37322]%N ++ runes_of_ascii "
+:	msg_type, [ """ ++ [128512]%N ++ runes_of_ascii """
+]: //
+i64_ }
+,
+repeat
+u8x
+    body , } MetaData
+roots {	u8x packetx `two words` , // trailing space 
+}")).
+Eval vm_compute in ("<<<M1936>>>" ++ check (runes_of_ascii "
+MetaData	u128  { 
+}
+MetaData
+
+    a1
+
+    { }  // " ++ [128512]%N ++ runes_of_ascii " emoji
+	root packet 
+o
+	{
+	char[
+	10 
+]	stringy @lengthOf(
+/// triple
+
+	// 50% %s
+  	Z9_	//	t
+    	)
+, match	x_y_z
+as 
+stringy
+    { 
+3:
+	float,
+    }
+,  @leftPad
+
+    (
+' '
+)
+u128  { repeat  i32	msg_type
+	`it's` ,
+    x ,
+	repeat 
+char[	//
+	65535 ]
+T 
+,
+
+match
+A as
+i8i8{ """ ++ [128512]%N ++ runes_of_ascii """ : 
+Logon
+,
+},
+    }
+	,	}MetaData	x_y_z
+
+    { // @lengthOf(
+	options1	a1
+
+, u8x
+    x_y_z	`tab	here`  ,
+
+    char
+    MetaDataX
+,	// " ++ [27880; 37322]%N ++ runes_of_ascii "
+zchar[ 65535
+]
+chars ,
+char[]  crc  `doc`  ,
+}
+")).
+Eval vm_compute in ("<<<M128>>>" ++ check (runes_of_ascii "packet asx {u32
+asx,char[ 0123456789	] crc
+@calculatedFrom( ""1""
+    ) `{ , }`  ,  @tag(
+    42
+)
+@tag( 7 )
+    msg_type{asx @calculatedFrom( ""a	b""
+    )`it's` , },
+@calculatedFrom(	""\n"" ) // " ++ [128512]%N ++ runes_of_ascii " emoji
+char[ 3
+] float
+    ,zchar[	4294967296
+]
+zchar	,@lengthOf( roots)
+i16
+int @lengthOf(
+i64_ )
+, i16 pack
+    @lengthOf(
+    u128 )
+    , @lengthOf(
+    // 50% %s
+    msg_type ) char[] A , repeat	char[]tag`a\` ,
+}
+//	t
+// @lengthOf(
+packet
+pack
+    { u	@lengthOf(
+    a1
+    )	`say ""hi""`, }
+//	t
+")).
+Eval vm_compute in ("<<<M1802>>>" ++ check (runes_of_ascii "
+options{
+
+    ArrayPrefixLenType
+=
+    u64
+;
+FixedStringPadFromLeft
+    =  true	; FixedStringPadChar
+	= '0'	;
+
+    } packet Order { 
+} root  packet Leg { char[]
+
+Ref 
+,	repeat
+Order	, f32
+Acct, @leftPad
+(
+
+'0'	)
+char[ 
+10
+
+    ]	venue 
+,  @rightPad  ( 
+'0'
+	)  char[ 3
+
+]
+seqNo ,repeat u64	Px ,
+
+    u8
+	Flags 
+,
+    u32
+lastPx @lengthOf(
+Body ) 
+, match
+
+    Flags as Body {
+
+185 :
+Order 
+,  }  , u16
+	sym @calculatedFrom( ""CR\
+C32"")
+    ,	} ")).
+Eval vm_compute in ("<<<M1976>>>" ++ check (runes_of_ascii "options
+	{ } 
+root
+	packet chars
+    {@rightPad
+
+    ( '0' 
+)	chars
+f32a
+
+    `say ""hi""`
+
+,
+int16  u8x ,
+
+    @tag( 4294967296
+	)
+
+    @rightPad	// packet A { u8 x, }
+	( 
+)
+u64
+
+packetx
+@calculatedFrom(""it's""
+
+)	,
+
+    @calculatedFrom( 
+  // `tick` ""quote"" 'q'
+  	""\n"" )
+	o@calculatedFrom(
+    ""a\""b"" 
+)
+	,
+    Logon	@lengthOf(BodyLength),}
+options 
+{
+} MetaData 
+zchar  { u64
+MetaDataX`// not a comment`,  }")).
+Eval vm_compute in ("<<<M253>>>" ++ check (runes_of_ascii "packet // a // b
+u8x  {// trailing space 
+repeat roots{ zchar[ 42
+]
+// 50% %s
+// a // b
+u@lengthOf( i64_)  `line1
+line2`
+, f64 Packet
+`` , zchar[
+    4294967296 ]
+msg_type ,
+}, }root packet rootA{
+    @calculatedFrom( ""// no comment""
+)  @calculatedFrom(// " ++ [128512]%N ++ runes_of_ascii " emoji
+""" ++ [233]%N ++ runes_of_ascii "t" ++ [233]%N ++ runes_of_ascii """ ) match	body
+    as Foo
+    /// triple
+    {  10 :
+a1} , @tag( 42 )@calculatedFrom( ""1"" )
+repeat int64 float  `u8 x,` ,}
+")).
+Eval vm_compute in ("<<<M1463>>>" ++ check (runes_of_ascii "  MetaData // 50% %s
+
+	body {Foo Packet
+`a\`  , T float
+	, 
+int64
+Logon`// not a comment` ,zchar[
+0  ] i64_ /// triple
+
+`" ++ [28040; 24687; 31867; 22411]%N ++ runes_of_ascii "` 
+, 	 // `tick` ""quote"" 'q'
+    char[	7  // @lengthOf(
+]  calculatedFrom	,  int16 Logon
+
+, }  MetaData
+i64_{int	//
+  leftPad
+
+`// not a comment`
+
+    , trueish
+	Logon ,
+    string	Header
+
+    `doc`
+
+,  // packet A { u8 x, }
+
+}")).
+Eval vm_compute in ("<<<M241>>>" ++ check (runes_of_ascii "MetaData A { u32 charz `doc` , // 50% %s
+char[ 255 ] packetx ,uint64
+f32a `" ++ [233]%N ++ runes_of_ascii "` ,
+x Packet  `{ , }`
+,}MetaData BodyLength {	zchar[ 007
+] Packet ,
+    BodyLength leftPad ,char	packetx , zchar[ 3 ]
+    // @lengthOf(
+    _x // trailing space 
+, string i8i8 ,
+} MetaData MetaDataX	{	metadata BodyLength
+/// triple
+// 50% %s
+`doc` , }
+")).
+Eval vm_compute in ("<<<M298>>>" ++ check (runes_of_ascii "// trailing space 
+options { MetaDataX =	zchar[	3
+    ] ; packetx = true u128= ""\" ++ [233]%N ++ runes_of_ascii """
+    // packet A { u8 x, }
+    ; x = 1 x
+= true;  } MetaData u8x  { float64 leftPad  , a1
+As `it's` , int16 // a // b
+metadata
+, As Packet
+    `100% of %d`, leftPad uint8x
+`it's` , As
+Foo, // 50% %s
+}
+")).
+Eval vm_compute in ("<<<M1721>>>" ++ check (runes_of_ascii "packet P1 {
+    u8 a,
+}
+
+packet P2 {
+    P1,
+}
+
+packet P3 {
+    P2,
+    P1,
+}
+
+packet P4 {
+    repeat P3,
+    P2,
+}
+
+root packet P5 {
+    P4,
+    P3,
+    P1,
+    u8 K,
+    match K as Body {
+        4 : P4,
+        3 : P3,
+        2 : P2,
+        1 : P1,
+    },
+}")).
+Eval vm_compute in ("<<<M482>>>" ++ check (runes_of_ascii "packet
+    asx { @calculatedFrom(
+""""  ) @tag( 255 )repeat
+// packet A { u8 x, }
+// trailing space 
+int16 u8x
+,
+@tag(
+    //
+    007 )
+    @tag( 0
+    /// triple
+    ) @tag( @tag( 1) u
+    @lengthOf( T ),
+// `tick` ""quote"" 'q'
+//x
+} // " ++ [128512]%N ++ runes_of_ascii " emoji")).
+Eval vm_compute in ("<<<M512>>>" ++ check (runes_of_ascii "packet
+    asx { @calculatedFrom(
+""""  ) @tag( 255 )repeat
+// packet A { u8 x, }
+// trailing space 
+int16 u8x
+,
+@tag(
+    //
+    007 )
+    @tag( 0
+    /// triple
+    ) @tag( 1) u
+    @lengthOf( T ) ),
+// `tick` ""quote"" 'q'
+//x
+} // " ++ [128512]%N ++ runes_of_ascii " emoji")).
+Eval vm_compute in ("<<<M448>>>" ++ check (runes_of_ascii "packet
+    asx { @calculatedFrom(
+""""  ) @tag( 255 )repeat
+// packet A { u8 x, }
+// trailing space 
+int16 u8x
+@tag(
+,
+    //
+    007 )
+    @tag( 0
+    /// triple
+    ) @tag( 1) u
+    @lengthOf( T ),
+// `tick` ""quote"" 'q'
+//x
+} // " ++ [128512]%N ++ runes_of_ascii " emoji")).
+Eval vm_compute in ("<<<M476>>>" ++ check (runes_of_ascii "packet
+    asx { @calculatedFrom(
+""""  ) @tag( 255 )repeat
+// packet A { u8 x, }
+// trailing space 
+int16 u8x
+,
+@tag(
+    //
+    007 )
+    @tag( 0
+    /// triple
+     @tag( 1) u
+    @lengthOf( T ),
+// `tick` ""quote"" 'q'
+//x
+} // " ++ [128512]%N ++ runes_of_ascii " emoji")).
+Eval vm_compute in ("<<<M1302>>>" ++ check (runes_of_ascii "// top
+root // c0
+packet // c1
+P // c2a
+  // c2b
+{ // c3a
+  // c3b
+u8 // c4a
+  // c4b
+s_u8 // c5a
+  // c5b
+, repeat
+    // c7
+u8 // c8a
+  // c8b
+r_u8 // c9a
+  // c9b
+,
+    // c10
+u16
+    // c11
+b_len // c12
+, // c13a
+  // c13b
+} ")).
+Eval vm_compute in ("<<<M1516>>>" ++ check (runes_of_ascii "  packet
+    Pad{  /// triple
+    trueish
+    {
+    uint16
+    Packet	@lengthOf(
+    i8i8
+    )
+
+`" ++ [28040; 24687; 31867; 22411]%N ++ runes_of_ascii "`
+    , Logon	,
+
+    repeat	// `tick` ""quote"" 'q'
+zchar[	255 ]
+	f32a
+	`say ""hi""`
+, }	,
+	    //	t
+	} ")).
+Eval vm_compute in ("<<<M1322>>>" ++ check (runes_of_ascii "options {
+    FixedStringPadChar = '0';
+}
+packet Q {
+    zchar[4] z,
+    @rightPad('\x00') char[3] n,
+    char[5] d,
+}
+root packet R {
+    Q,
+    zchar[8] top,
+    repeat zchar[2] zs,
+}
+")).
+Eval vm_compute in ("<<<M1431>>>" ++ check (runes_of_ascii "MetaData u {
+}
+
+MetaData o {
+    float uint8x `100% of %d`,
+    repeatCount u8x,
+    string_ leftPad,
+    i32 Foo,
+    int64 x `two words`,
+    stringy calculatedFrom `a\`,
+}")).
+Eval vm_compute in ("<<<M1345>>>" ++ check (runes_of_ascii "  packet u128
+{
+	u8 a
+
+,}
+    root packet
+Msg	{
+    u8 k  ,
+    u24
+	{
+
+u8 Hi
+	, 
+u16
+
+    Lo
+	,  }
+    ,repeat i24{u32 q , } , u128  ,u16
+	float32x
+	, string
+	s,	}
+")).
+Eval vm_compute in ("<<<M1483>>>" ++ check (runes_of_ascii "packet asx {
+    @calculatedFrom("""")
+    @tag(255)
+    repeat int16 u8x,
+    @tag(007)
+    @tag(0)
+    @tag(1)
+    u @lengthOf(T),
+    // `tick` ""quote"" 'q'
+    //x
+}")).
+Eval vm_compute in ("<<<M628>>>" ++ check (runes_of_ascii "MetaData u
+    { } MetaData o
+{ float uint8x
+`100% of %d` ,repeatCount u8x, string_ leftPad
+i32 ,
+    Foo , int64 x `two words` , calculatedFrom
+stringy `a\` ,
+}
+")).
+Eval vm_compute in ("<<<M721>>>" ++ check (runes_of_ascii "packet
+crc
+{repeat  Foo A  `u8 x,` ,	@lengthOf( uint8x ) string
+matchKey @lengthOf( stringy ) `a\`
+,
+    // c
+    }
+MetaData chars{
+leftPad
+    //	t
+    crc
+`" ++ [233]%N ++ runes_of_ascii "`")).
+Eval vm_compute in ("<<<M691>>>" ++ check (runes_of_ascii "MetaData u
     { } MetaData o
 { float uint8x
 `100% of %d` ,repeatCount u8x, string_ leftPad
 , i32
-    Foo")).
-Eval vm_compute in ("<<<M910>>>" ++ check (runes_of_ascii "packet A {
-  match k as n {
-    [1, 22, ""c c"", 4, 5, ""f"", 7, 8, ""i"", 10, 11, ""l""] : B,
-    2 : C
-  },
-}")).
-Eval vm_compute in ("<<<M62>>>" ++ check (runes_of_ascii "
-options
-    { calculatedFrom
-    =  int8 ;
-metadata
-=string ; Logon =
-    int8 //
-Foo = 42 ; }
-")).
-Eval vm_compute in ("<<<M1926>>>" ++ check (runes_of_ascii "// top
-root packet P {
-    // c3
-    repeat char cs,
-    // c7
-    u8 x,// c10
-}// c11a
-// c11b")).
-Eval vm_compute in ("<<<M856>>>" ++ check (runes_of_ascii "packet A {
-  match k as n {
-    [""a"", 22, ""c c"", 4, ""e"", 66, ""g"", 8] : B,
-    2 : C
-  },
-}")).
-Eval vm_compute in ("<<<M1318>>>" ++ check (runes_of_ascii "
-
-  packet 
-orderItem{
-u8 
-a
-,
-    }root packet
-newOrder
-
-    {orderItem	,u8
-	x, }
-")).
-Eval vm_compute in ("<<<M527>>>" ++ check (runes_of_ascii "packet
-    asx { @calculatedFrom(
-""""  ) @tag( 255 )repeat
-// packet A { u8 x, }
-/")).
-Eval vm_compute in ("<<<M86>>>" ++ check (runes_of_ascii "MetaData	f32a // @lengthOf(
-{ // `tick` ""quote"" 'q'
-charz msg_type , } // " ++ [27880; 37322]%N)).
-Eval vm_compute in ("<<<M1260>>>" ++ check (runes_of_ascii "packet Inner {
+    Foo , int64 x `two words` , calculatedFrom
+stringy `a")).
+Eval vm_compute in ("<<<M1780>>>" ++ check (runes_of_ascii "packet Inner {
+    // c2a
+    // c2b
     u8 a,
-}
+    // c5
+}// c6a
+
+// c6b
 root packet P {
-    Inner ref_obj,
+    repeat Inner items,// c14a
+    // c14b
     u8 x,
 }
+// c18")).
+Eval vm_compute in ("<<<M1655>>>" ++ check (runes_of_ascii "MetaData uint8x {
+    char msg_type `two words`,
+    char[3] chars `say ""hi""`,
+    zchar[007] zchar,
+    // " ++ [128512]%N ++ runes_of_ascii " emoji
+}// `tick` ""quote"" 'q'")).
+Eval vm_compute in ("<<<M247>>>" ++ check (runes_of_ascii "root	packet
+f32a { float32 // packet A { u8 x, }
+pack`// not a comment`, // `tick` ""quote"" 'q'
+}
+packet
+chars{
+//	t
+// " ++ [128512]%N ++ runes_of_ascii " emoji
+}")).
+Eval vm_compute in ("<<<M1426>>>" ++ check (runes_of_ascii "packet A {
+    u16 len @lengthOf(body) `x
+        `,
+    u32 crc @calculatedFrom(""CRC32"") `x
+        `,
+    string body,
+}")).
+Eval vm_compute in ("<<<M1250>>>" ++ check (runes_of_ascii "options { } options { MetaDataX = char ; } MetaData Pad { i8 metadata , string stringy , int8 As `{ , }` , }
+// c
 ")).
-Eval vm_compute in ("<<<M1459>>>" ++ check (runes_of_ascii "// a // b
-MetaData 	 //x
-  	repeatCount{
-	string 
-uint8x  ,
+Eval vm_compute in ("<<<M1229>>>" ++ check (runes_of_ascii "options { } options { MetaDataX = char ; } MetaData Pad { i8 // c
+metadata , string stringy , int8 As `{ , }` , }")).
+Eval vm_compute in ("<<<M923>>>" ++ check (runes_of_ascii "packet A {
+    u16 len @lengthOf(body) `a
+b`,
+    u32 crc @calculatedFrom(""CRC32"") `a
+b`,
+    string body,
+}")).
+Eval vm_compute in ("<<<M1287>>>" ++ check (runes_of_ascii "options {
+    LittleEndian = true;
+}
+root packet P {
+    u16 a,
+    u32 Sum @calculatedFrom(""CRC32""),
+}
+")).
+Eval vm_compute in ("<<<M948>>>" ++ check (runes_of_ascii "packet A {
+    Inner {
+        u8 x `x
+`,
+        Deep {
+            u8 y `x
+`,
+        },
+    },
+}")).
+Eval vm_compute in ("<<<M1822>>>" ++ check (runes_of_ascii "  packet Foo
+    {
+	float64
+a1 , 
+string
 
-    }
+Z9_ @lengthOf( Logon)
+`line1
+line2` , } 
+// " ++ [128512]%N ++ runes_of_ascii " emoji
 ")).
+Eval vm_compute in ("<<<M1265>>>" ++ check (runes_of_ascii "
+
+  packet 
+Inner {u8  a	,  }  root
+
+    packet
+P  {  repeat
+Inner
+
+items
+    ,	u8	x
+, }
+")).
+Eval vm_compute in ("<<<M1882>>>" ++ check (runes_of_ascii "// `tick` ""quote"" 'q'
+options {
+    stringy = ""\" ++ [233]%N ++ runes_of_ascii """
+    float = """ ++ [233]%N ++ runes_of_ascii "t" ++ [233]%N ++ runes_of_ascii """
+    trueish = u8
+}")).
+Eval vm_compute in ("<<<M1286>>>" ++ check (runes_of_ascii "
+options{
+	FixedStringPadFromLeft =	true  ; }root 
+packet
+P
+{  char[	4 ]
+z
+	,
+}
+")).
+Eval vm_compute in ("<<<M837>>>" ++ check (runes_of_ascii "packet A {
+  match k as n {
+    [1, 22, 007, 4, 5, 66, 7] : B,
+    2 : C
+  },
+}")).
+Eval vm_compute in ("<<<M101>>>" ++ check (runes_of_ascii "MetaData
+    u128
+    {matchKey i64_
+    , BodyLength T ,	msg_type body, }")).
+Eval vm_compute in ("<<<M806>>>" ++ check (runes_of_ascii "packet A {
+  match k as n {
+    [1, 22, ""c c"", 4] : B,
+    2 : C
+  },
+}")).
 Eval vm_compute in ("<<<M785>>>" ++ check (runes_of_ascii "packet A {
   match k as n {
     [1, 22, 007] : B,
     2 : C
   },
 }")).
-Eval vm_compute in ("<<<M776>>>" ++ check (runes_of_ascii "packet A {
-  match k as n {
-    [1, 22] : B,
-    2 : C
-  },
-}")).
+Eval vm_compute in ("<<<M375>>>" ++ check (runes_of_ascii "// a // b
+MetaData//x
+repeatCount {
+string uint8x ,
+    } 	 ")).
 Eval vm_compute in ("<<<M797>>>" ++ check (runes_of_ascii "packet A { Inner { match k as n { [1,22,007] : B, }, }, }")).
-Eval vm_compute in ("<<<M73>>>" ++ check (runes_of_ascii "options {
-} packet
-Foo
-{
-// 50% %s
-// @lengthOf(
-}
-")).
-Eval vm_compute in ("<<<M1777>>>" ++ check (runes_of_ascii "
-packet
-
-A{u8
-
-    x
-	`d x`
-    ,// c x
-}
-")).
-Eval vm_compute in ("<<<M1684>>>" ++ check (runes_of_ascii "
-packet
-
-    A
-	{
-    } 
-    // c" ++ [133]%N ++ runes_of_ascii "
- 
-")).
-Eval vm_compute in ("<<<M172>>>" ++ check (runes_of_ascii "MetaData
-//x
-// @lengthOf(
-i8i8 { }
-")).
-Eval vm_compute in ("<<<M276>>>" ++ check (runes_of_ascii "packet crc// `tick` ""quote"" 'q'
-{}")).
-Eval vm_compute in ("<<<M974>>>" ++ check (runes_of_ascii "root packet A {
-    u8 x `%`,
+Eval vm_compute in ("<<<M1666>>>" ++ check (runes_of_ascii "MetaData M {
+    u8 x `
+    x`,
+    T t `
+    x`,
 }")).
-Eval vm_compute in ("<<<M257>>>" ++ check (runes_of_ascii "packet calculatedFrom
-{} 	 ")).
-Eval vm_compute in ("<<<M220>>>" ++ check (runes_of_ascii "packet Packet
-    { } 	 ")).
-Eval vm_compute in ("<<<M1411>>>" ++ check (runes_of_ascii "MetaData 
-x_y_z	{  }
-")).
-Eval vm_compute in ("<<<M1000>>>" ++ check (runes_of_ascii "packet A {
+Eval vm_compute in ("<<<M595>>>" ++ check (runes_of_ascii "MetaData u
+    { } MetaData o
+{ float uint8x")).
+Eval vm_compute in ("<<<M1409>>>" ++ check (runes_of_ascii "// top
+MetaData tag {
+    // c2
 }
-// c" ++ [12288]%N)).
-Eval vm_compute in ("<<<M1093>>>" ++ check (runes_of_ascii "MetaData M {
-}// c")).
-Eval vm_compute in ("<<<M1685>>>" ++ check (runes_of_ascii "root packet A {
+// c3")).
+Eval vm_compute in ("<<<M1087>>>" ++ check (runes_of_ascii "options { a = 1 // c b = 2; // d}")).
+Eval vm_compute in ("<<<M713>>>" ++ check (runes_of_ascii "packet
+crc
+{repeat  Foo A  `u8 x,`")).
+Eval vm_compute in ("<<<M1801>>>" ++ check (runes_of_ascii "packet A {
+    u8 x `d" ++ [8203]%N ++ runes_of_ascii "`,// c" ++ [8203]%N ++ runes_of_ascii "
 }")).
-Eval vm_compute in ("<<<M730>>>" ++ check (runes_of_ascii "// a
-// b
+Eval vm_compute in ("<<<M921>>>" ++ check (runes_of_ascii "packet A {
+    u8 x `a
+b`,
+}")).
+Eval vm_compute in ("<<<M1571>>>" ++ check (runes_of_ascii "// c
+  root
+packet a1{
+	}")).
+Eval vm_compute in ("<<<M335>>>" ++ check (runes_of_ascii "//	t
+packet x {
+    }
 ")).
-Eval vm_compute in ("<<<M731>>>" ++ check (runes_of_ascii "
-
-
-")).
+Eval vm_compute in ("<<<M996>>>" ++ check (runes_of_ascii "// c 
+packet A {
+}")).
+Eval vm_compute in ("<<<M1078>>>" ++ check (runes_of_ascii "packet A {
+}// c x")).
+Eval vm_compute in ("<<<M1171>>>" ++ check (runes_of_ascii "packet x { // c
+}")).
+Eval vm_compute in ("<<<M712>>>" ++ check (runes_of_ascii "packet
+crc")).
+Eval vm_compute in ("<<<M724>>>" ++ check (runes_of_ascii "
+	 ")).
